@@ -18,7 +18,8 @@ Record expect := {
 
 Record final := {
   f_hist : list (list (option string * (Z * list Z)));   (* per labware: full history *)
-  f_comp : list compobs
+  f_comp : list compobs;
+  f_report : list (option (list (option string * list Z)))   (* per labware: parsed report (None: not parsed) *)
 }.
 
 Record case := {
@@ -124,7 +125,14 @@ Definition verdict (c : case) : option (Z * Z) :=
       match run_check s0 (p_ops c) 0%Z with
       | (_, Some im) => Some im
       | (s, None) =>
-          let m := ((if list_eqb hist_match (f_hist (p_final c)) (st_lw s) then 0 else 8)
+          let report_ok := list_eqb (fun r L => match r with
+                                                | None => true
+                                                | Some ents =>
+                                                    list_eqb (fun a b => option_eqb String.eqb (fst a) (fst b)
+                                                                         && list_eqb Z.eqb (snd a) (snd b))
+                                                             ents (report_entries L)
+                                                end) (f_report (p_final c)) (st_lw s) in
+          let m := ((if list_eqb hist_match (f_hist (p_final c)) (st_lw s) && report_ok then 0 else 8)
                     + (if list_eqb comp_match (f_comp (p_final c)) (st_lw s) then 0 else 16))%Z in
           if (m =? 0)%Z then None else Some (-2, m)%Z
       end
